@@ -790,7 +790,23 @@ interval_relation(const ITV& i,
   else {
     // `c' is an upper bound.
     if (i.upper_is_boundary_infinity()) {
-      return Poly_Con_Relation::strictly_intersects();
+      // The interval is bounded from below only (the universe case
+      // has been dealt with): compare the lower bound with `bound'.
+      PPL_ASSERT(!i.lower_is_boundary_infinity());
+      assign_r(bound_diff, i.lower(), ROUND_NOT_NEEDED);
+      sub_assign_r(bound_diff, bound_diff, bound, ROUND_NOT_NEEDED);
+      switch (sgn(bound_diff)) {
+      case 1:
+        return Poly_Con_Relation::is_disjoint();
+      case 0:
+        if (constraint_type == Constraint::STRICT_INEQUALITY
+            || i.lower_is_open()) {
+          return Poly_Con_Relation::is_disjoint();
+        }
+        return Poly_Con_Relation::strictly_intersects();
+      default:
+        return Poly_Con_Relation::strictly_intersects();
+      }
     }
     else {
       assign_r(bound_diff, i.upper(), ROUND_NOT_NEEDED);
@@ -974,7 +990,9 @@ Box<ITV>::relation_with(const Constraint& c) const {
             && Poly_Con_Relation::is_included();
         }
       case 1:
-        return Poly_Con_Relation::is_included();
+        return c.is_equality()
+          ? Poly_Con_Relation::is_disjoint()
+          : Poly_Con_Relation::is_included();
       }
     }
     else {
